@@ -73,6 +73,8 @@ func c07Decode(c *Ctx, label string, holder reflect.Value, dst interface{}, doc 
 	var pan string
 	if strings.HasPrefix(label, "decoder") {
 		err, pan = safeDo(func() error { return json.NewDecoder(&chunkReader{data: input, size: 5}).Decode(dst) })
+	} else if strings.HasPrefix(label, "noescape") {
+		err, pan = safeDo(func() error { return json.UnmarshalNoEscape(input, dst) })
 	} else {
 		err, pan = safeDo(func() error { return json.Unmarshal(input, dst) })
 	}
@@ -100,7 +102,29 @@ func c07Decode(c *Ctx, label string, holder reflect.Value, dst interface{}, doc 
 		}
 	}
 	c.Oracle("touches-only-destination/"+label, fmt.Sprintf("%s <- %s", genTypeString(holder.Type()), doc), verdict+fmt.Sprintf(" (err=%s)", errT(err)), "canaries intact, destination well-formed", verdict == "", "")
+	// destinations of earlier calls are not this call's to write: what they held is what they hold
+	for _, k := range c07Kept {
+		now, p3 := "", ""
+		_, p3 = safeDo(func() error { now = fmt.Sprintf("%+v", k.h.Interface()); return nil })
+		ok := p3 == "" && now == k.snap
+		c.Oracle("earlier-destination-unchanged/"+label, k.what+" then "+doc, trunc([]byte(now+p3)), trunc([]byte(k.snap)), ok, "")
+	}
+	if err == nil && pan == "" && len(c07Kept) < 6 {
+		snap := ""
+		if _, p4 := safeDo(func() error { snap = fmt.Sprintf("%+v", holder.Interface()); return nil }); p4 == "" {
+			c07Kept = append(c07Kept, c07KeptDst{holder, snap, fmt.Sprintf("%s <- %s", genTypeString(holder.Type()), doc)})
+		}
+	}
 }
+
+type c07KeptDst struct {
+	h    reflect.Value
+	snap string
+	what string
+}
+
+// c07Kept: destinations of earlier calls of the running case with what they held when the call returned
+var c07Kept []c07KeptDst
 
 func runC07(c *Ctx) {
 	c.Rep.Rule = "destinations from the generator grammar placed between canary byte arrays (before, between every field, after; 1..9 bytes so that every alignment occurs), arrays and slices of every element size 1..64 bytes with JSON arrays shorter than, equal to and longer than the Go array; documents valid and invalid (type-directed with noise, truncated), Unmarshal and Decoder with 5-byte reads; after every call, successful or not: canaries intact, every string and slice header in the destination well-formed (walked without dereferencing), forced GC, traversal with fmt; ops: the bytes the array decoder stores to (decoded / cleared / untouched, including 16 guard bytes after the array) vs the Lean model of its address arithmetic; non-trivial = every case"
@@ -111,6 +135,7 @@ func runC07(c *Ctx) {
 	c.RunCases("canaries", ncases, func(c *Ctx, k int, rng *rand.Rand) {
 		g := &Gen{R: rng}
 		ht := c07Canaried(rng, g)
+		c07Kept = nil
 		for di := 0; di < 6; di++ {
 			d := &docGen{r: rng, noise: []int{0, 5, 20, 40, 5, 20}[di]}
 			doc := d.forType(ht, 3)
@@ -127,6 +152,9 @@ func runC07(c *Ctx) {
 			if di == 2 {
 				label = "decoder"
 			}
+			if di == 3 || di == 1 {
+				label = "noescape"
+			}
 			c07Decode(c, label, h, h.Addr().Interface(), doc, []byte(doc))
 		}
 		// pooled working storage: a populated decode followed by a null-heavy document of the same
@@ -135,7 +163,7 @@ func runC07(c *Ctx) {
 			full := (&docGen{r: rng, noise: 0, nulls: 1}).forType(ht, 3)
 			h1 := reflect.New(ht).Elem()
 			c07FillCanaries(h1)
-			label := []string{"unmarshal", "decoder", "unmarshal"}[round]
+			label := []string{"unmarshal", "decoder", "noescape"}[round]
 			c07Decode(c, label+"-populate", h1, h1.Addr().Interface(), full, []byte(full))
 			sparse := (&docGen{r: rng, noise: 0, nulls: 45}).forType(ht, 3)
 			hn := reflect.New(ht).Elem()
